@@ -1392,10 +1392,10 @@ func (g *Gtp5g) CreateBAR(lSeid uint64, req *ie.IE) error {
 			if err != nil {
 				return err
 			}
-			// TODO: convert time.Duration -> ?
+			// the IE and the gtp5g attribute both carry the delay in units of 50 ms
 			attrs = append(attrs, nl.Attr{
 				Type:  gtp5gnl.BAR_DOWNLINK_DATA_NOTIFICATION_DELAY,
-				Value: nl.AttrU8(v),
+				Value: nl.AttrU8(v / (50 * time.Millisecond)),
 			})
 		case ie.SuggestedBufferingPacketsCount:
 			v, err := i.SuggestedBufferingPacketsCount()
@@ -1434,10 +1434,10 @@ func (g *Gtp5g) UpdateBAR(lSeid uint64, req *ie.IE) error {
 			if err != nil {
 				return err
 			}
-			// TODO: convert time.Duration -> ?
+			// the IE and the gtp5g attribute both carry the delay in units of 50 ms
 			attrs = append(attrs, nl.Attr{
 				Type:  gtp5gnl.BAR_DOWNLINK_DATA_NOTIFICATION_DELAY,
-				Value: nl.AttrU8(v),
+				Value: nl.AttrU8(v / (50 * time.Millisecond)),
 			})
 		case ie.SuggestedBufferingPacketsCount:
 			v, err := i.SuggestedBufferingPacketsCount()
